@@ -230,6 +230,11 @@ def report(pid, tier, seed, P, mod, gens, meta, errors, t_start, args, jobs):
         rr_b = run_replayer(pid, mod, [pseudo], seed, tier)
         r_b = rr_b.get(obligation_key(pseudo))
         bounded = dict(ran=True, found=bool(r_b and r_b.get("found")), wall_s=round(time.time() - t_b, 1))
+        # listed findings the harness observed again (matched by witness tag; anything else it finds is a violation)
+        for tag in (r_b or {}).get("known", []):
+            for kf in known:
+                if kf.get("witness_tag") == tag and re.fullmatch(kf["obligation"], obligation_key(pseudo)):
+                    known_hits.append((kf, dict(pseudo, verdict="known", backend="native", stage="bounded")))
         if bounded["found"]:
             engine_witness.append((dict(pseudo, note="all obligations were discharged: the failing input exercises a clause no contract covers"), r_b["replay"]))
     # a known finding that no longer fails is reported (informational): the entry should become 'fixed'
@@ -371,7 +376,7 @@ def write_evidence(pid, tier, seed, P, gens, meta, real, canaries, failed, viola
     under_contract = sorted({index.lookup(t.target).fq for t in P.tasks if t.kind == "verify"})
     by_backend = Counter((m["backend"] + ":" + m["stage"]) for m in real if m["verdict"] == m["expect"])
     discharged = sum(1 for m in real if m["verdict"] == m["expect"])
-    known_n = len(known_hits)
+    known_n = sum(1 for _, m in known_hits if m.get("kind") != "bounded")
     slowest = sorted(real, key=lambda m: -m.get("time_s", 0))[:5]
     samples = []
     for m in (real[:3] + real[len(real) // 2: len(real) // 2 + 2] + real[-2:]):
